@@ -238,14 +238,40 @@ func checkC16(r *Result) {
 				}
 			}
 		}
-		for _, b := range st.Blocks {
-			if iff, ok := b.Instrs[len(b.Instrs)-1].(*ssa.If); ok {
-				rel, _ := Cond(tm.Of(iff.Cond))
-				if rel.Op == "<" && len(rel.Args) == 2 && rel.Args[0].Contains("GetValidatorSetTimestampBefore") && rel.Args[1].Op == "call:(time.Time).UnixMilli" {
-					okCmp = true
+		// the boolean returned on success is "last checkpoint timestamp < (block time - two weeks)": either the
+		// comparison itself, or constants true / false under the matching branch of that comparison
+		isCmp := func(rel *Term) bool {
+			return rel.Op == "<" && len(rel.Args) == 2 && rel.Args[0].Contains("GetValidatorSetTimestampBefore") && rel.Args[1].Op == "call:(time.Time).UnixMilli"
+		}
+		nRet, badRet := 0, ""
+		for _, ret := range SuccessReturns(st) {
+			nRet++
+			t := tm.Of(ResultOf(ret, 0))
+			switch t.Op {
+			case "const:true", "const:false":
+				found := false
+				dominatingConds(ret.Block(), tm, func(rel *Term, truth bool) bool {
+					if isCmp(rel) {
+						found = true
+						if truth != (t.Op == "const:true") {
+							badRet = fmt.Sprintf("returns %s where the comparison is %v", t.Op, truth)
+						}
+						return false
+					}
+					return true
+				})
+				if !found {
+					badRet = "a constant is returned without the comparison deciding the path"
+				}
+			default:
+				rel, pol := Cond(t)
+				if !isCmp(rel) || !pol {
+					badRet = "returned value: " + clip(t.String(), 120)
 				}
 			}
 		}
+		okCmp = nRet > 0 && badRet == ""
+		_ = badRet
 		r.check(okConst && okCmp, "UPDATE-RULE", "(x/bridge/keeper.Keeper).LastSavedValidatorSetStale # stale <=> last checkpoint older than two weeks", P.Pos(st.Pos()), fmt.Sprintf("two-week constant folded: %v ; compares the last checkpoint timestamp: %v", okConst, okCmp))
 	}
 	if pd := need("(x/bridge/keeper.Keeper).PowerDiff"); pd != nil {
